@@ -105,6 +105,7 @@ int main(int argc, char ** argv)
    verif::Result res; res.harness = "C11_thread";
    CompleteSetupSystem css;
    schedx::Options opt; opt.bound = args.Thorough() ? 4 : 3;
+   opt.yieldOnUnlock = true;   // a lock release is a visible operation: the window between 'queue unlocked' and the next socket/condition operation must be schedulable
    if (args.kv.count("bound")) opt.bound = atoi(args.kv["bound"].c_str());
    if (!args.replay.empty()) {
       verif::ReplayDoc d; if (!d.Load(args.replay)) { fprintf(stderr, "cannot read %s\n", args.replay.c_str()); return 3; }
